@@ -515,3 +515,65 @@ func TestDRAProbeRestoreAfterInformerUpdate(t *testing.T) {
 }
 
 func evsOf(es []sched.Event) []string { return evs(es) }
+
+// R6: the in-flight allocation of a claim that is DELETED between two sessions (a generated claim goes with its
+// owner pod: the Binding pod was evicted / deleted) is not withdrawn: session open only walks the claims that still
+// exist. One scheduler cache; the node has one device.
+func TestDRAProbeInFlightAllocationOfDeletedClaim(t *testing.T) {
+	p := newProbe(map[string]int{"n0": 1})
+	p.group("pg-b", 1)
+	p.group("pg-p", 1)
+	p.claim("b-accel", nil)
+	p.claim("claim-p", nil)
+	p.pod("b", "pg-b", "b-accel", "n0", false, alloc("n0", "d0"))
+	p.pod("p", "pg-p", "claim-p", "", false, nil)
+	podGVR := v1.SchemeGroupVersion.WithResource("pods")
+	brGVR := schedulingv1alpha2.GroupVersion.WithResource("bindrequests")
+	evs := p.persistent(t, 3, func(cycle int, ssn *framework.Session) {
+		show(t, fmt.Sprintf("cycle %d at session open:", cycle), claimLines(ssn))
+		show(t, "  C14 claim oracle:", mon.CheckClaims(ssn, map[string]int{}))
+	}, func(cycle int, st *store.Store) {
+		if cycle == 1 {
+			_ = st.Tracker.Delete(podGVR, "ns", "b")
+			_ = st.Tracker.Delete(brGVR, "ns", "b")
+			_ = st.Tracker.Delete(claimGVRProbe, "ns", "b-accel")
+			t.Logf("-- after cycle 1: pod b, its bind request and its generated claim b-accel are deleted; n0/d0 is free")
+		}
+	})
+	for i, e := range evs {
+		t.Logf("cycle %d events: %v", i+1, evsOf(e))
+	}
+}
+
+// R2b is sticky: once a victim was re-placed on a substitute device (its own was held by the preemptor), every later
+// evict / un-evict of it in the session restores the substitute, also when its real device is free again.
+func TestDRAProbePermutedVictimKeepsSubstituteDevice(t *testing.T) {
+	p := newProbe(map[string]int{"n0": 2})
+	p.group("pg-v", 1)
+	p.group("pg-p", 1)
+	p.claim("claim-v", alloc("n0", "d0"), "v")
+	p.claim("claim-p", nil)
+	p.pod("v", "pg-v", "claim-v", "n0", true, nil)
+	p.pod("p", "pg-p", "claim-p", "", false, nil)
+	p.run(t, func(ssn *framework.Session, task func(string, string) *pod_info.PodInfo) {
+		v, pp := task("pg-v", "v"), task("pg-p", "p")
+		var h mon.ClaimHistory
+		oracle := func() []string { return h.Classify(mon.CheckClaims(ssn, map[string]int{})) }
+		stmt := ssn.Statement()
+		_ = stmt.Evict(v, "probe", eviction_info.EvictionMetadata{})
+		_ = stmt.Pipeline(pp, "n0", false)
+		_ = stmt.Pipeline(v, "n0", false)
+		show(t, "after Evict(v); Pipeline(p, n0); Pipeline(v, n0) [un-evict]:", claimLines(ssn))
+		show(t, "C14 claim oracle:", oracle())
+		_ = stmt.Evict(pp, "probe", eviction_info.EvictionMetadata{})
+		show(t, "after Evict(p) (the nominated preemptor is dropped again; n0/d0 is free in the view):", claimLines(ssn))
+		show(t, "C14 claim oracle:", oracle())
+		_ = stmt.Evict(v, "probe", eviction_info.EvictionMetadata{})
+		_ = stmt.Pipeline(v, "n0", false)
+		show(t, "after Evict(v); Pipeline(v, n0) [un-evict] once more:", claimLines(ssn))
+		show(t, "C14 claim oracle:", oracle())
+		stmt.Discard()
+		show(t, "after Discard():", claimLines(ssn))
+		show(t, "C14 claim oracle:", oracle())
+	})
+}
